@@ -104,7 +104,7 @@ def run_property(prop, verdict, runs, require_actions=(), tlc_props=(), rule="",
         "states": total["states"], "transitions": total["exported"],
         "traces_validated_against_impl": total["replayed"] - total["truncated"],
         "samples": samples or [{"note": "no sample recorded"}],
-        "exhaustive": all(r.stride == 1 and not r.simulate and not r.max_tx for r in runs),
+        "exhaustive": all(r.stride == 1 and not r.simulate and not r.max_tx and not r.stats.get("skipped_by_budget") for r in runs),
         "evaluations": total["replayed"], "distinct_nontrivial": total["replayed"] - total["truncated"],
         "rule": rule or "every exported transition of the TLC state graph is replayed from an empty file "
                         "(history prefix in one session, then the action), full projection compared before and after",
